@@ -60,6 +60,7 @@ type qParam struct {
 	Name string `json:"name"`
 	In   string `json:"inn"`
 	Ref  bool   `json:"ref"`
+	Tag  string `json:"tag"` // description|type: tells WHICH parameter of a given (in, name) was answered
 }
 type qErr struct {
 	Ref  []string `json:"ref"`
@@ -253,7 +254,7 @@ func opQueries(req *Req) (any, map[string]string, error) {
 	briefs := func(m map[string]spec.Parameter) []qParam {
 		out := []qParam{}
 		for key, p := range m {
-			out = append(out, qParam{Key: key, Name: names.scalarStr(p.Name), In: p.In, Ref: p.Ref.String() != ""})
+			out = append(out, qParam{Key: key, Name: names.scalarStr(p.Name), In: p.In, Ref: p.Ref.String() != "", Tag: names.scalarStr(p.Description) + "|" + p.Type})
 		}
 		sort.Slice(out, func(i, j int) bool { return out[i].Key < out[j].Key })
 		return out
@@ -261,7 +262,7 @@ func opQueries(req *Req) (any, map[string]string, error) {
 	briefList := func(l []spec.Parameter) []qParam {
 		out := []qParam{}
 		for _, p := range l {
-			out = append(out, qParam{Key: "", Name: names.scalarStr(p.Name), In: p.In, Ref: p.Ref.String() != ""})
+			out = append(out, qParam{Key: "", Name: names.scalarStr(p.Name), In: p.In, Ref: p.Ref.String() != "", Tag: names.scalarStr(p.Description) + "|" + p.Type})
 		}
 		sort.Slice(out, func(i, j int) bool { return out[i].Name+out[i].In < out[j].Name+out[j].In })
 		return out
@@ -409,6 +410,7 @@ func genQueryDoc(g *Gen, r *rand.Rand) *Node {
 	g.newNameConcrete("unusedWidgetZ")
 	g.Names.Bind("N_50", "widgetZ")
 	d.Ch["definitions"] = defs
+	serial := 0
 	param := func(j int) *Node {
 		switch k := r.Intn(8); {
 		case k == 0 && len(shared) > 0:
@@ -416,9 +418,15 @@ func genQueryDoc(g *Gen, r *rand.Rand) *Node {
 		case k == 1:
 			return refNode("root", "parameters", "doesNotExist")
 		case k == 2:
+			if d.Ch["securityDefinitions"] != nil && r.Intn(2) == 0 {
+				// resolves to a security scheme: not a parameter, although it has a name and a location
+				return refNode("root", "securityDefinitions", sortedKeys(d.Ch["securityDefinitions"].Ch)[0])
+			}
 			return refNode("root", "definitions", "N_50") // resolves, but not to a parameter
 		}
 		p := g.simpleParam([]string{"limit", "offset", "X-Trace", "id", "filter"}[r.Intn(5)])
+		serial++
+		p.At["description"] = fmt.Sprintf("d%d", serial) // every inline parameter is distinguishable from its namesakes
 		if r.Intn(6) == 0 {
 			p.At["x-go-name"] = "Custom" + fmt.Sprint(j)
 		}
